@@ -17,6 +17,37 @@ import time
 from rpv.common import PYTHON, VERIF_ROOT, scratch_base
 
 
+def _margin(evidence_path: str, prop: str, tier: str) -> str:
+    """Smallest measured / minimum ratio over the tier's minimum counts (how far the run was from INCONCLUSIVE)."""
+    import importlib
+    import json
+
+    try:
+        with open(evidence_path, encoding="utf-8") as handle:
+            evidence = json.load(handle)
+        minimums = importlib.import_module(f"rpv.checks.{prop.lower()}").SETTINGS[tier].get("minimums", {})
+    except Exception:  # pylint: disable=broad-except
+        return ""
+    counters: dict = {}
+
+    def walk(node: object) -> None:
+        if isinstance(node, dict):
+            for key, value in node.items():
+                if isinstance(value, (int, float)) and not isinstance(value, bool):
+                    counters.setdefault(key, value)
+                walk(value)
+        elif isinstance(node, list):
+            for item in node:
+                walk(item)
+
+    walk(evidence)
+    ratios = [(counters[("distinct_nontrivial" if name == "nontrivial" else name)] / minimum, name) for name, minimum in minimums.items() if minimum and ("distinct_nontrivial" if name == "nontrivial" else name) in counters]
+    if not ratios:
+        return ""
+    ratio, name = min(ratios)
+    return f" margin={ratio:.2f}x({name})"
+
+
 def main() -> int:
     parser = argparse.ArgumentParser()
     parser.add_argument("--seeds", default="0-4")
@@ -39,7 +70,7 @@ def main() -> int:
                 proc = subprocess.run(command, cwd=str(VERIF_ROOT), env=env, capture_output=True, text=True)
                 status = "ok" if proc.returncode == 0 else f"EXIT {proc.returncode}"
                 first = proc.stdout.strip().splitlines()[0] if proc.stdout.strip() else ""
-                print(f"seed={seed} {prop} {status} {time.time() - t0:.0f}s {first}")
+                print(f"seed={seed} {prop} {status} {time.time() - t0:.0f}s {first}{_margin(os.path.join(scratch, 'evidence', prop + '.json'), prop, args.tier)}")
                 if proc.returncode != 0:
                     bad += 1
                     for line in proc.stdout.strip().splitlines()[1:6]:
